@@ -345,22 +345,28 @@ def sg_registry():
 
     @model
     def m_cgd(ip, args, kw):
-        ip.ghost['cgd'] = (list(args), dict(kw))
+        ip.ghost['cgd'] = (list(args), kw)
         return (Vc('grad_prop'), Obj('DynM', {'states': Seq(Int('n_states'), (lambda f: lambda j: f(j))(z3.Function('state_at', z3.IntSort(), V)), 'list')}))
+
+    def two(args, kw):
+        # (dt, parameters), however they are passed
+        a = list(args[1:])
+        a += [kw[n] for n in ['dt', 'parameters'][len(a):] if n in kw]
+        return (a, {})
 
     @model
     def m_props(ip, args, kw):
-        ip.ghost['props'] = (list(args[1:]), dict(kw))
+        ip.ghost['props'] = two(args, kw)
         return Vc('propagators_accessor')
 
     @model
     def m_derivs(ip, args, kw):
-        ip.ghost['derivs'] = (list(args[1:]), dict(kw))
+        ip.ghost['derivs'] = two(args, kw)
         return Vc('derivatives_accessor')
 
     @model
     def m_chain(ip, args, kw):
-        ip.ghost['chain'] = (list(args), dict(kw))
+        ip.ghost['chain'] = (list(args), kw)
         return Vc('final_derivs')
 
     @model
@@ -408,7 +414,7 @@ def post_sg(ip, ctx, out):
     ip.prove('sg/adjoint-computation-gets-the-callers-inputs', z3.BoolVal(
         k.get('system') is kw['system'] and k.get('initial_state') is kw['initial_state'] and k.get('target_derivative') is kw['target_derivative']
         and k.get('process_tensors') is kw['process_tensors'] and k.get('parameters') is kw['parameters'] and k.get('start_time') is kw['start_time']),
-        {'handed over': {x: repr(v) for x, v in k.items()}})
+        {'handed over': {x: repr(k.get(x)) for x in ('system', 'initial_state', 'target_derivative', 'process_tensors', 'parameters', 'start_time')}})
     ip.prove('sg/time-grid-of-the-first-process-tensor', z3.And(veq(k.get('dt'), ctx['dt']), veq(k.get('num_steps'), ctx['N'])), {'dt': repr(k.get('dt')), 'num_steps': repr(k.get('num_steps'))})
     for nm in ('props', 'derivs'):
         a2, k2 = g[nm]
